@@ -75,7 +75,7 @@ for _pid, _txt in {
                       "replay": [PY, "native/replay_sm.py"],
                       "standins": {"quick": {"bounded: real StateMachine/AutonomousStateMachine on random machine shapes, histories and action scripts vs a reference simulator and statement-level monitors": [PY, "native/replay_sm.py"]}}}
 
-_ROBOT_MODS = ["ext_hal", "ext_time", "control", "precise_delay", "robot"]
+_ROBOT_MODS = ["ext_hal", "ext_time", "ext_ds", "control", "precise_delay", "selector", "robot"]
 _ROBOT_NOTE = ("Assumed: wpilib/hal/ntcore externals (DriverStation flags arbitrary, isFMSAttached stable within an iteration, NT setters do not raise); the component/feedback/"
                "periodic/reset lists are well formed (distinct existing objects); user callbacks touch framework-private state only through the public API; "
                "dict.update semantics of component.__dict__.update; NotifierDelay per C16; SimpleWatchdog per C19.")
@@ -91,5 +91,11 @@ for _pid, _txt in {
     "C11": "Postcondition of _do_periodics: each @feedback getter called exactly once per call, its setter called with exactly the value returned in that call, not called when the getter raised, "
            "others unaffected; reached from every mode loop.",
 }.items():
-    REGISTRY[_pid] = {"modules": _ROBOT_MODS, "verify_modules": ["robot"], "level": "proof", "level_text": _txt, "level_note": _ROBOT_NOTE,
-                      "design_ref": f"DESIGN.md section 5 {_pid}", "claimed": False}
+    REGISTRY[_pid] = {"modules": _ROBOT_MODS, "verify_modules": ["robot", "selector"], "level": "proof", "level_text": _txt, "level_note": _ROBOT_NOTE,
+                      "design_ref": f"DESIGN.md section 5 {_pid}"}
+REGISTRY["C14"] = {"modules": _ROBOT_MODS, "verify_modules": ["selector", "robot"], "level": "proof",
+                   "level_text": "Lifecycle half: contracts of run/start/periodic/disable/_on_autonomous_enable/_on_iteration with a typestate ghost per mode: the chosen mode (dashboard string if it names a mode, else the chooser) "
+                                 "gets on_enable once, one on_iteration(t) per loop iteration with non-decreasing t, on_disable once; no other mode is touched. Discovery half (__init__): see level_note.",
+                   "level_note": _ROBOT_NOTE + " The discovery loop of AutonomousModeSelector.__init__ (importlib/glob/inspect reflection) is not under contract; it is covered by a bounded native stand-in only.",
+                   "design_ref": "DESIGN.md section 5 C14", "claimed": False}
+
